@@ -1,7 +1,7 @@
 SPECIFICATION MCSpec
 CONSTANTS
   FamilyIx = 8
-  MaxSteps = 4
+  MaxSteps = 3
   KeepHist = TRUE
   Versions <- MCVersions
   Runnable <- MCRunnable
